@@ -169,17 +169,42 @@ def run(ctx, rep):
             rep.fail("R19.3", "%s:found" % tag, "%s not found" % name)
             continue
         rep.fn(name)
+        from mirq import inline_calls
+        modp = name[1:].split(" as ")[0].rsplit("::", 1)[0] + "::"
+        pb = inline_calls(pb, lambda d, modp=modp: d.startswith(modp) and "{closure" not in d and " as " not in d, depth=3)
         srcs = pb.calls_to(src)
-        pend = [i for i, bl in enumerate(pb.blocks) for st in bl["stmts"] if st["k"] == "assign" and st["place"]["l"] == 0 and st["rv"]["k"] == "agg" and st["rv"].get("vname") == "Pending"]
-        ok = len(srcs) == 1 and len(pend) >= 1
+        ok = len(srcs) == 1
+        pend = 0
         if ok:
-            cands = pb.switch_on(lambda o: o[0] == "discr" and o[1][0] == "call" and o[1][4] == srcs[0][0])
-            cands = [c for c in cands if pb.dominates(srcs[0][0], c[0]) and all(pb.dominates(c[0], p) or True for p in pend)]
-            first = [c for c in cands if all(pb.dominates(c[0], o[0]) for o in cands)]
-            ok = bool(first)
-            if ok:
-                sw = first[0]
-                pend_t = sw[1].get(1, sw[2])
-                ok = all(p not in pb.reach(0, avoid_edges={(sw[0], pend_t)}) for p in pend)
+            # on the path table: every path that returns Pending took the source's own Pending answer (tests of one discriminant
+            # that contradict each other come from the match lowering and are not paths of the program)
+            sbb = srcs[0][0]
+            try:
+                rows = pb.decision_rows()
+            except Exception:
+                rows = None
+            ok = rows is not None
+            for conds, ret, _o in rows or ():
+                if ret[1] != "Pending":
+                    continue
+                allowed = None
+                feasible = True
+                for c in conds:
+                    o = c[4]
+                    if o[0] == "discr" and o[1][0] == "call" and len(o[1]) > 4 and o[1][4] == sbb:
+                        if c[2] == "eq":
+                            allowed = set(c[3]) if allowed is None else allowed & set(c[3])
+                        elif c[2] == "ne" and allowed is not None:
+                            allowed = allowed - set(c[3])
+                        elif c[2] == "ne":
+                            allowed = {0, 1} - set(c[3])
+                        if not allowed:
+                            feasible = False
+                if not feasible:
+                    continue
+                pend += 1
+                if allowed != {1}:
+                    ok = False
+            ok = ok and pend >= 1
         rep.check("R19.3", "%s:pending-only-from-source" % tag, ok, "%s poll_read may return Pending after it has consumed data into a local" % tag, pb.loc(), sample={"adaptor": tag, "pending_blocks": pend})
     rep.floor("R19.3", 1)
